@@ -309,6 +309,7 @@ package soyhtml
 // the arguments may panic; evalFunc's recover turns that into a render error.
 //@ func funcRange
 //@   like renderFn
+//@   intrange
 //@   props C06 C01 C02 C08 C09
 //@   nosafety assert idx
 //@   ensures[bounded] typeis(result, data.List)
